@@ -132,6 +132,34 @@ class Installation:
         return self.m["ext"].ExtendedMessage(self.m["err"].AcErrorInformationMessage(ac, self.errors.get(ac)))
 
 
+def dirty_padding(gen: int, payload: bytes) -> bytes:
+    """AC ability (0xFF11) and AT4 group names (0xFF12) carry names in fixed-width fields, terminated by NUL when shorter.
+    What follows the NUL is not part of the name (a console may leave the tail of an older, longer name there):
+    fill it with bytes that are not even valid UTF-8."""
+    if len(payload) < 2 or payload[0] != 0xFF:
+        return payload
+    b = bytearray(payload)
+
+    def soil(start: int, width: int) -> None:
+        field = b[start:start + width]
+        if len(field) == width and 0 in field:
+            i = field.index(0)
+            for j in range(i + 1, width):
+                b[start + j] = (0xFF, 0xC3, 0xE2, 0x80)[j % 4]
+    if payload[1] == 0x11:
+        pos = 2
+        while pos + 2 <= len(b):
+            ln = b[pos + 1]
+            soil(pos + 2, 16)
+            pos += 2 + ln
+    elif payload[1] == 0x12 and gen == 4:
+        pos = 2
+        while pos + 9 <= len(b):
+            soil(pos + 1, 8)
+            pos += 9
+    return bytes(b)
+
+
 def restride(payload: bytes, pad: int) -> bytes:
     """AT5 0xC0 payload with every repeated record lengthened by `pad` bytes (announced in the sub-header)"""
     if len(payload) < 8:
@@ -196,6 +224,7 @@ class Console:
         self.segment: Optional[Callable[[bytes], list[bytes]]] = None
         self.turns = 0          # event-loop iterations the client gets between two segments
         self.mute: set = set()  # request kinds this console does not answer (e.g. {"error_info"})
+        self.dirty_names = False  # fixed-width name fields carry stale bytes after the terminating NUL
         self.stride_pad = 0     # AT5: extra bytes appended to every status record (a console with a newer layout)
         self.answer_controls = False
         self.manual = False                     # True: never answer, only record
@@ -208,6 +237,8 @@ class Console:
             raise RuntimeError(f"console cannot encode {msg!r}: {r}")
         if repr(msg) not in FRAMED[self.gen]:
             FRAMED[self.gen][repr(msg)] = (copy.deepcopy(msg), bytes(r[2]))
+        if self.dirty_names and msg.message_id == 0x1F:
+            r = (r[0], r[1], dirty_padding(self.gen, bytes(r[2])))
         if self.stride_pad and self.gen == 5 and msg.message_id == 0xC0:
             r = (r[0], r[1], restride(bytes(r[2]), self.stride_pad))
         frm = 0x90 if msg.message_id == 0x1F else 0x80
